@@ -158,7 +158,7 @@ def mutations(g, s):
     if enums:
         p, n, ns = r.choice(enums)
         m = copy.deepcopy(n)
-        m["symbols"] = m["symbols"] + [r.choice(["9x", "a-b", "", "é", "a b"])]
+        m["symbols"] = m["symbols"] + [r.choice(["9x", "a-b", "", "é", "a b", "AB\n", "\nAB", "A\tB", " AB", "AB ", "A.B", "AB\r", "AB\u2028", "A\x00B", "AB\n\n"])]
         out.append(("malformed-symbol", set_at(s, p, m)))
         m = copy.deepcopy(n)
         m["symbols"] = m["symbols"] + [m["symbols"][0]]
@@ -220,7 +220,18 @@ def mutations(g, s):
             m = copy.deepcopy(n)
             m.update({"logicalType": "decimal", "precision": maxp, "scale": 0})
             out.append(("valid:decimal-max-precision", set_at(s, p, m)))
-    else:
+    # a fixed decimal whose scale lies above its precision but below what the size could hold
+    if prims:
+        for size in (4, 8, 12):
+            maxp = int(math.floor(math.log10(2) * (8 * size - 1)))
+            p, n, ns = r.choice(prims)
+            prec = r.randint(1, max(1, maxp - 2))
+            sc = r.randint(prec + 1, maxp)
+            out.append(("decimal-scale-above-precision", replace_type(s, p, {"type": "fixed", "name": "DecSc%d" % size, "size": size, "logicalType": "decimal",
+                                                                                 "precision": prec, "scale": sc})))
+            out.append(("valid:decimal-scale-equals-precision", replace_type(s, p, {"type": "fixed", "name": "DecSq%d" % size, "size": size,
+                                                                                        "logicalType": "decimal", "precision": prec, "scale": prec})))
+    if not fixeds:
         for size in (1, 2, 3, 5, 8, 10, 15, 20):
             maxp = int(math.floor(math.log10(2) * (8 * size - 1)))
             fx = {"type": "fixed", "name": "DecFx%d" % size, "size": size, "logicalType": "decimal", "precision": maxp + 1, "scale": 0}
